@@ -278,6 +278,33 @@ fn oracle(case: &Case, outs: &[OutEl]) -> Option<String> {
                 }
             }
         }
+        // U shapes (both ends on edges facing the same way): the connecting run lies beyond BOTH end points by
+        // the (absolute) corner-offset, 3 by default - so each end is left and entered from outside its box
+        if pts.len() == 4 {
+            let edge_of2 = |e: &End, p: (f64, f64)| -> Option<char> {
+                if let End::El(i, _) = e {
+                    let bx = case.boxes[*i];
+                    let (cx, cy) = ((bx[0] + bx[2]) / 2.0, (bx[1] + bx[3]) / 2.0);
+                    let c: Vec<char> = [('l', near(p.0, bx[0]) && near(p.1, cy)), ('r', near(p.0, bx[2]) && near(p.1, cy)), ('t', near(p.1, bx[1]) && near(p.0, cx)), ('b', near(p.1, bx[3]) && near(p.0, cx))]
+                        .iter().filter(|(_, on)| *on).map(|(c, _)| *c).collect();
+                    if c.len() == 1 { Some(c[0]) } else { None }
+                } else { None }
+            };
+            let off = match case.offset.as_deref() { None => Some(3.0), Some(o) if o.ends_with('%') => None, Some(o) => o.parse::<f64>().ok() };
+            if let (Some(a), Some(b), Some(off)) = (edge_of2(&case.start, first), edge_of2(&case.end, last), off) {
+                if a == b {
+                    let (want, got, ok_shape) = match a {
+                        'b' => (first.1.max(last.1) + off, pts[1].1, near(pts[1].1, pts[2].1) && near(pts[0].0, pts[1].0) && near(pts[2].0, pts[3].0)),
+                        't' => (first.1.min(last.1) - off, pts[1].1, near(pts[1].1, pts[2].1) && near(pts[0].0, pts[1].0) && near(pts[2].0, pts[3].0)),
+                        'r' => (first.0.max(last.0) + off, pts[1].0, near(pts[1].0, pts[2].0) && near(pts[0].1, pts[1].1) && near(pts[2].1, pts[3].1)),
+                        _ => (first.0.min(last.0) - off, pts[1].0, near(pts[1].0, pts[2].0) && near(pts[0].1, pts[1].1) && near(pts[2].1, pts[3].1)),
+                    };
+                    if ok_shape && !near(want, got) {
+                        return Some(format!("the run of the U-shaped connector (both ends on '{a}' edges) is at {got}, but {off} beyond the farther end point is {want}: {}", k.el.xml()));
+                    }
+                }
+            }
+        }
         if let Some(d) = dir_of(&case.start, first) {
             let seg_vertical = near(pts[0].0, pts[1].0) && !near(pts[0].1, pts[1].1);
             let seg_horizontal = near(pts[0].1, pts[1].1) && !near(pts[0].0, pts[1].0);
